@@ -8,6 +8,7 @@
 -/
 import Nervus.Proofs.CApi
 import Nervus.Proofs.CApiJson
+import Nervus.Proofs.Txn
 namespace Nervus.Props.C34
 open Nervus.CApi Nervus.CApiJson
 
@@ -141,5 +142,41 @@ theorem counterexample_first_row_policy :
   · intro h
     simp [rowsJsonFirstRowPolicy, hetRows, rowJson, holdsRef, reify, hetLook, toJson, toJsonKVs] at h
   · simp [rowsJsonFirstRowPolicy, hetRows, rowJson, holdsRef, reify, hetLook, toJson, toJsonKVs]
+
+
+/-! ### the auto-commit write entry point commits whatever the reported count (Nervus.Model.Txn) -/
+
+section AutoCommit
+open Nervus.Txn
+
+/-- what the source does today: nothing stands between `execute_mixed`'s success and `txn.commit()` in
+    `execute_write_count` (regenerated; an early return in between is rejected by the recogniser) -/
+theorem commit_is_unconditional : Generated.capiAutoCommitUnconditional = true := by decide
+
+/-- **autocommit_persists_staged**: after a successful `ndb_execute_write` the committed graph is committed ⊕ the
+    writes the statement staged — for every state, every statement, whatever write count the executor reports
+    (the Rust path prepare → execute_mixed → commit does exactly this, so the two databases stay equal). -/
+theorem autocommit_persists_staged (σ : State) (s : Stmt) (hopen : σ.staged = none)
+    (hok : (exec σ.committed σ.allocated s).failed = false) :
+    (codeStep σ (.auto s)).1.committed = applyAll σ.committed (exec σ.committed σ.allocated s).prims ∧
+      (codeStep σ (.auto s)).2 = .ok := by
+  rw [codeStep_def]
+  simp [step, hopen, hok, autoCommits, autocommit_unconditional]
+
+/-- the executor's count is not "nothing staged": `MERGE (n:A {k: 1}) ON MATCH SET n.q = false` on a database
+    that holds the node stages a property write and reports 0 -/
+def mergeState : State := ⟨[⟨0, 0, 1, some .t, none⟩], 1, none⟩
+theorem merge_on_match_counts_zero :
+    reportedCount (.mergeset 0 1 .f) (exec mergeState.committed mergeState.allocated (.mergeset 0 1 .f)) = 0 ∧
+      (exec mergeState.committed mergeState.allocated (.mergeset 0 1 .f)).prims = [.setQ 0 0 .f] := by decide
+
+/-- **counterexample for "skip the commit when the count is 0"** (the shape of seeded fault C34-seed4): the call
+    reports success, the update is discarded; with the unconditional commit it is persisted. -/
+theorem counterexample_skip_commit_on_zero_count :
+    autoCommits false (reportedCount (.mergeset 0 1 .f)
+      (exec mergeState.committed mergeState.allocated (.mergeset 0 1 .f))) = false ∧
+      (codeStep mergeState (.auto (.mergeset 0 1 .f))).1.committed.map (·.q) = [some .f] := by decide
+
+end AutoCommit
 
 end Nervus.Props.C34
